@@ -148,21 +148,28 @@ pub mod c11;
 pub mod c14;
 #[cfg(not(kani))]
 pub mod e2n;
+#[cfg(not(kani))]
+pub mod battery;
 
 harnesses! {
     e2n_min_fee_for_size [native 0] => e2n::min_fee_for_size;
     e2n_ex_units_cost [native 0] => e2n::ex_units_cost;
     e2n_ref_script_fee [native 0] => e2n::ref_script_fee;
     e2n_c20_tables [native 0] => e2n::c20_tables;
+    e2n_c05_gate [native 0] => e2n::c05_gate;
+    e2n_c07_min_ada [native 0] => e2n::c07_min_ada;
+    e2n_builder_battery [native 0] => battery::builder_battery;
     c11_enc_base [stub 4] => c11::enc_base;
     c11_enc_enterprise [stub 4] => c11::enc_enterprise;
     c11_enc_reward [stub 4] => c11::enc_reward;
     c11_rt_base [stubbyron 4] => c11::rt_base;
     c11_rt_enterprise [stubbyron 4] => c11::rt_enterprise;
     c11_rt_reward [stubbyron 4] => c11::rt_reward;
-    c11_pointer_rt_slot [stubbyron 12] => c11::pointer_rt_slot;
-    c11_pointer_rt_tx [stubbyron 12] => c11::pointer_rt_tx;
-    c11_pointer_rt_cert [stubbyron 12] => c11::pointer_rt_cert;
+    c11_pointer_enc_slot [stub 12] => c11::pointer_enc_slot;
+    c11_pointer_enc_tx [stub 12] => c11::pointer_enc_tx;
+    c11_pointer_enc_cert [stub 12] => c11::pointer_enc_cert;
+    c11_ref_varnat_inverse [stub 12] => c11::ref_varnat_inverse;
+    c11_strict_parse_ptr_long [stubbyron 14] => c11::strict_parse_ptr_long;
     c11_strict_parse_short [stubbyron 8] => c11::strict_parse_short;
     c11_strict_parse_base [stubbyron 4] => c11::strict_parse_base;
     c11_embedded_verbatim_short [stubbyron 36] => c11::embedded_verbatim_short;
